@@ -1349,8 +1349,8 @@ class AFS(Family):
     prelude = PRELUDE
 
     def coq_check(self, case, obs):
-        """one sample set, polarised, branch mode: the Gallina port of the C sweep (C08.Afs,
-        which reproduces finding C08-F2) must give exactly the implementation's table"""
+        """one sample set, polarised, branch mode: the Gallina port of the (repaired) C sweep
+        and the Coq definition must both give exactly the implementation's table"""
         if "err" in obs or case["mode"] != "branch" or not case["polarised"] or len(case["sets"]) != 1:
             return None
         out = obs["out"] if case["windows"] not in (None, "none") else [obs["out"]]
@@ -1359,9 +1359,11 @@ class AFS(Family):
         desc = case["desc"]
         wins = [fr(x) for x in case["wins"]]
         exp = "[" + "; ".join(cqlist([rat(v) for v in row]) for row in out) + "]"
-        return "check_afs_port (afs_branch_port %s %s %s %s %s) %s %s %s" % (
+        nrm = "true" if case["span_normalise"] else "false"
+        return ("check_afs_port (afs_branch_port %s %s %s %s %s) %s %s %s && check_afs_spec %s %s %s %s %s %s %s" % (
             coq_times(desc), czl(case["sets"][0]), czl(samples_of(desc)), coq_edges(obs["tab"], desc["L"]),
-            cqlist(wins), "true" if case["span_normalise"] else "false", cqlist(wins), exp)
+            cqlist(wins), nrm, cqlist(wins), exp,
+            coq_times(desc), czl(case["sets"][0]), czl(samples_of(desc)), coq_segs(desc), nrm, cqlist(wins), exp))
 
     def nontrivial(self, case, obs):
         return "out" in obs and (len(case["desc"]["edges"]) > 0)
